@@ -403,6 +403,12 @@ func runWorld(g *Group, world string) *Transcript {
 	// ---- admission history: identical in every world (decoded entry) ----
 	for i, op := range g.History {
 		label := fmt.Sprintf("h%d", i)
+		tOp := time.Now()
+		if os.Getenv("C05_TIMING") != "" {
+			defer func(op Op) {
+				_ = op
+			}(op)
+		}
 		switch op.Kind {
 		case "q":
 			m := buildQuery(op.Name, op.Qtype, uint16(100+i), op.DO, op.CD, op.NoEDNS, op.ECS)
@@ -424,6 +430,9 @@ func runWorld(g *Group, world string) *Transcript {
 				return tr
 			}
 			st.Cache().VerifStore().RecordZoneFailure(dns.Question{Name: op.Zone, Qtype: dns.TypeA, Qclass: dns.ClassINET}, op.Zone)
+		}
+		if d := time.Since(tOp); d > 20*time.Millisecond && os.Getenv("C05_TIMING") != "" {
+			fmt.Fprintf(os.Stderr, "slow history op %+v: %v\n", op, d)
 		}
 	}
 
